@@ -305,14 +305,28 @@ func TestExhaustiveKinds(t *testing.T) {
 					}
 					return ll
 				}
-				mk := &synth.Markers{WithFF: true}
-				n := synth.Build(s, mk, present, listLen, []byte(fmt.Sprintf("%sV%d%s", synth.OpenTok, mi, synth.CloseTok)))
-				total++
-				d := synth.Describe(s, present, listLen)
-				harness.NonTrivial([]byte(d), d)
-				if m := checkSynthetic(n); m != "" {
-					harness.Failf(t, "exhaustive-kinds", []byte(d), map[string]string{"node": d}, "%s: %s", d, m)
-					return
+				hasStmtSlot := false
+				for _, f := range slots {
+					if s.Fields[f].Name == "Stmt" && s.Fields[f].Class == astx.FChild && present(f) {
+						hasStmtSlot = true
+					}
+				}
+				for _, block := range []bool{false, true} {
+					if block && !hasStmtSlot {
+						continue
+					}
+					mk := &synth.Markers{WithFF: true, BlockStmt: block}
+					n := synth.Build(s, mk, present, listLen, []byte(fmt.Sprintf("%sV%d%s", synth.OpenTok, mi, synth.CloseTok)))
+					total++
+					d := synth.Describe(s, present, listLen)
+					if block {
+						d += "+Stmt={block}"
+					}
+					harness.NonTrivial([]byte(d), d)
+					if m := checkSynthetic(n); m != "" {
+						harness.Failf(t, "exhaustive-kinds", []byte(d), map[string]string{"node": d}, "%s: %s", d, m)
+						return
+					}
 				}
 				hasList := false
 				for _, f := range slots {
